@@ -24,6 +24,7 @@ import (
 	_ "verif/harness/c19"
 	_ "verif/harness/c20"
 	_ "verif/harness/reactiveh"
+	_ "verif/harness/serverh"
 )
 
 func find(prop, name string) []*reg.Harness {
